@@ -239,7 +239,7 @@ CHECKS["C19"] = {
 CHECKS["C12"] = {
     "engine": "E3 schedule explorer + free-running ThreadSanitizer pass",
     "deadline": {"quick": 1500, "thorough": 6000},   # the largest thorough unit (3 threads, flags 0xff, cold, bound 3) is 228 462 schedules, about 45 min in one process
-    "jobs": lambda tier: [job("C12.cpp", "C12_sched", ["-DVMODE=0"], link=["-lpthread", "-ldl"], weight=5),
+    "jobs": lambda tier: [job("C12.cpp", "C12_sched", ["-DVMODE=0"], link=["-lpthread", "-ldl"], weight=5, shards={"quick": 11, "thorough": 16}),
                           job("C12.cpp", "C12_tsan", ["-DVMODE=1"], cxx="clang++", flags=["-fsanitize=thread"], link=["-lpthread"], shards=4,
                               env={"TSAN_OPTIONS": "halt_on_error=1 exitcode=66 report_signal_unsafe=0"}),
                           job("C12.cpp", "C12_omp", ["-DVMODE=2"], flags=["-fopenmp"], link=["-lpthread"], shards=2)],
